@@ -142,3 +142,4 @@ CFG['rule'] = CFG['rule'] + ' ' + 'A sixth configuration: in-memory backend with
 
 CFG['rule'] = CFG['rule'] + ' ' + 'Every second history searches the (empty) vector indexes before anything is written; graph indexes also get one query without a pre-filter per step.'
 CFG['rule'] = CFG['rule'] + ' ' + 'One history in six has a graph index whose binary quantiser learns its threshold inside the history.'
+CFG['rule'] = CFG['rule'] + ' ' + 'One history in 24 holds 120..135 points (node ids past 101 / 113 / 118, where a byte of the id equals a key suffix). The ill-typed values include an empty string for string / string-array indexes (the file store refuses the empty key: batch rejected).'
